@@ -46,6 +46,7 @@ from workflows.runtime.types.ticks import (
     TickIdleCheck,
     TickIdleRelease,
     WorkflowTick,
+    WorkflowTickAdapter,
 )
 from workflows.workflow import Workflow
 
@@ -361,6 +362,12 @@ class DBOSIdleReleaseDecorator(BaseRuntimeDecorator):
         # Include the pending tick in the rebuilt state so the control loop
         # has it queued before it starts processing.
         if pending_tick is not None:
+            # The tick never goes through the control loop, so nothing else
+            # records it: append it to the tick log, or the next rebuild from
+            # the log would replay this run's later ticks without it.
+            await self._store.append_tick(
+                run_id, WorkflowTickAdapter.dump_python(pending_tick, mode="json")
+            )
             init_state = rebuild_state_from_ticks(init_state, [pending_tick])
 
         # Carry over state from old run's state store
